@@ -84,8 +84,8 @@ func c15(c *wk.Ctx) {
 		r.Case(kind + "|" + cls)
 		if got != want {
 			outcome := slotDeviation(k, got)
-			r.Violationf("C15|keytoslot|outcome="+outcome, map[string]interface{}{"key": fmt.Sprintf("%q", k), "want": want, "got": got},
-				"KeyToSlot(%q)=%d, Cluster specification gives %d", k, got, want)
+			r.Violationf("C15|keytoslot|outcome="+outcome, map[string]interface{}{"key": fmt.Sprintf("%q", truncB(k, 200)), "key_bytes": len(k), "want": want, "got": got},
+				"KeyToSlot(%q) (%d bytes)=%d, Cluster specification gives %d", truncB(k, 80), len(k), got, want)
 		}
 	}
 	// (a) exhaustive small alphabet
@@ -120,6 +120,21 @@ func c15(c *wk.Ctx) {
 			k = append([]byte("héé\xff\xfe世"), k...)
 		}
 		check(k, "rand")
+	}
+	// (b1) very long keys and hash tags (lengths around 2^8 and 2^16)
+	for _, n := range []int{255, 256, 257, 65535, 65536, 65537, 70000, 131072, 200000} {
+		k := rng.Bytes(n)
+		for j := range k {
+			if k[j] == '{' || k[j] == '}' {
+				k[j] = 'x'
+			}
+		}
+		check(k, "long")
+		tagged := append(append([]byte("pre{"), k...), []byte("}post")...)
+		check(tagged, "long-tag")
+		shortTag := append([]byte("{ab}"), k...)
+		check(shortTag, "long-key-short-tag")
+		r.Count("very_long_keys", 3)
 	}
 	// (b2) the slot of a key does not depend on who else is asking: 8 goroutines at the same time
 	{
@@ -160,14 +175,17 @@ func c15(c *wk.Ctx) {
 	bad := 0
 	for i := 0; i < c.N(30000, 200000); i++ {
 		k := rng.Bytes(rng.Range(0, 64))
+		if i < 12 {
+			k = rng.Bytes([]int{255, 256, 65535, 65536, 65537, 100000}[i%6]) // lengths around 2^8 and 2^16
+		}
 		want := refcrc.CRC16(k)
 		if g := utils.VerifCRC16(string(k)); g != want && bad < 3 {
 			bad++
-			r.Violationf("C15|crc16|copy=common", fmt.Sprintf("%x", k), "common.crc16(%x)=%#x want %#x", k, g, want)
+			r.Violationf("C15|crc16|copy=common", fmt.Sprintf("%x", truncB(k, 100)), "common.crc16(%x... %d bytes)=%#x want %#x", truncB(k, 40), len(k), g, want)
 		}
 		if g := latencymonitor.VerifCRC16(string(k)); g != want && bad < 6 {
 			bad++
-			r.Violationf("C15|crc16|copy=latencymonitor", fmt.Sprintf("%x", k), "latencymonitor.crc16(%x)=%#x want %#x", k, g, want)
+			r.Violationf("C15|crc16|copy=latencymonitor", fmt.Sprintf("%x", truncB(k, 100)), "latencymonitor.crc16(%x... %d bytes)=%#x want %#x", truncB(k, 40), len(k), g, want)
 		}
 		// redis-go-cluster's GetSlot (used by ChoseSlotInRange): no braces in k => whole key
 		hasBrace := false
